@@ -1260,6 +1260,21 @@ func (c *c09Gen) earlyHeaderLine(ci int, cs *coreSnap, ls *c09Snap, ra c09Ra) st
 	if signer < 0 || signer >= 5 {
 		return ""
 	}
+	ht := max(tr.H, ra.latest) + 2 + uint64(c.g.Intn(3)) // non-adjacent: the validator set differs from the trusted one
+	nv := uint64(signer + 1)
+	if ra.prop >= 0 {
+		nv = uint64(ra.prop + 1)
+	}
+	if c.g.Chance(40) {
+		// the same, naming a key no sequencer registered as proposer: the hub attributes the header to nobody and
+		// records no signer, yet its consensus state sits above the posted heights when the client is designated —
+		// the state update that later covers the height must still be compared with it
+		c.early = append(c.early, [2]int{-1, ci})
+		c.r.Hit("header/early-naming-unregistered-proposer")
+		return fmt.Sprintf("lc_update c%d w=top h=%d root=%d ts=%d nv=%d ps=%s pd=%s rev=%d trusted=%d vals=%s tvals=%s",
+			ci, ht, honestRoot(ht), honestTs(ht), nv, c09ActorTok(-1), c09ActorTok(-1), ra.rev, tr.H,
+			valsLine([]hdrVal{{signer, 10, true}, {-1, 1, false}}), valsLine([]hdrVal{{signer, 1, true}}))
+	}
 	a := -1
 	for _, m := range c.raMembers(cl.Chain) {
 		if q, ok := cs.Seqs[m]; ok && q.Bonded && m != ra.prop && m != signer {
@@ -1268,11 +1283,6 @@ func (c *c09Gen) earlyHeaderLine(ci int, cs *coreSnap, ls *c09Snap, ra c09Ra) st
 	}
 	if a < 0 {
 		return ""
-	}
-	ht := max(tr.H, ra.latest) + 2 + uint64(c.g.Intn(3)) // non-adjacent: the validator set differs from the trusted one
-	nv := uint64(signer + 1)
-	if ra.prop >= 0 {
-		nv = uint64(ra.prop + 1)
 	}
 	c.early = append(c.early, [2]int{a, ci})
 	c.r.Hit("header/early-signed-by-non-proposer-member")
@@ -1436,8 +1446,18 @@ func (c *c09Gen) next(cs *coreSnap, ls *c09Snap, inBlock *bool) string {
 	}
 	for _, e := range c.early {
 		a, ci := e[0], e[1]
+		if ci >= len(ls.Clients) || ls.Clients[ci].Chain != ri {
+			continue
+		}
+		if a < 0 {
+			if !hasCanon && g.Chance(10) {
+				c.r.Hit("setcanon/after-early-header-of-unregistered-proposer")
+				return fmt.Sprintf("lc_setcanon c%d", ci)
+			}
+			continue
+		}
 		q, ok := cs.Seqs[a]
-		if !ok || !q.Bonded || ci >= len(ls.Clients) || ls.Clients[ci].Chain != ri {
+		if !ok || !q.Bonded {
 			continue
 		}
 		if !hasCanon && g.Chance(10) {
@@ -1668,6 +1688,11 @@ func c09Directed() [][]string {
 		cat(ra0, []string{"fund a1 amt=100000", "create_seq a1 r0 bond=2000 denom=ok", up(1, 3), honest,
 			"lc_update c0 w=top h=5 root=6 ts=50 nv=1 ps=a1 pd=a1 rev=0 trusted=2 vals=a0:10:1,a1:1:1 tvals=a0:1:1",
 			"lc_setcanon c0", "unbond a1", "bond_dec a1 amt=100", up(4, 1), "unbond a1", up(5, 2), "bond_dec a1 amt=100", "unbond a1"}),
+		// a consensus state nobody is recorded as signer of (the header names a key no sequencer registered) sits above the
+		// posted heights when the client is designated; the state update covering it disagrees and must be refused
+		cat(ra0, []string{up(1, 3), honest,
+			"lc_update c0 w=top h=5 root=6 ts=50 nv=1 ps=x1 pd=x1 rev=0 trusted=2 vals=a0:10:1,x1:1:0 tvals=a0:1:1", "lc_setcanon c0",
+			"update r0 by=a0 start=4 num=3 rev=0 last=0 bdlen=3 seqerr=- ts=all drs=1 rooterr=- roots=5,99,7 tss=40,50,60", up(4, 3)}),
 		// happy path: designation, honest optimistic header, agreeing state update, channel
 		cat(ra0, []string{up(1, 3), honest, "lc_setcanon c0",
 			"lc_update c0 w=top h=5 root=6 ts=50 nv=1 ps=a0 pd=a0 rev=0 trusted=2 vals=a0:1:1 tvals=a0:1:1", up(4, 3),
